@@ -9,7 +9,7 @@ def chunks(lst, k):
     return [lst[i::k] for i in range(k)]
 
 
-def drive_and_judge(work, binary, runs, mode, name, racebin=None):
+def drive_and_judge(work, binary, runs, mode, name, racebin=None, test='TestTunnelSchedules', tracemod='Trace_Tun'):
     """Runs the schedules (in parallel chunks), validates every trace with TLC.
     Returns dict(bad, notes, info, events, states, runs_ok)."""
     parts = chunks(runs, vlib.NCPU if mode == 'bubble' else max(2, vlib.NCPU // 2))
@@ -24,10 +24,10 @@ def drive_and_judge(work, binary, runs, mode, name, racebin=None):
             for r in part:
                 f.write(json.dumps(r) + '\n')
         trace = os.path.join(d, 'trace.ndjson')
-        info = vlib.run_driver(racebin or binary, 'TestTunnelSchedules', sched, trace, mode=mode,
+        info = vlib.run_driver(racebin or binary, test, sched, trace, mode=mode,
                                env_extra={'GORACE': 'halt_on_error=1'} if racebin else None)
         nev = sum(1 for _ in open(trace))
-        rc, out = vlib.tlc(work, 'Trace_Tun', env_extra={'TRACE': trace}, name='%s_%d' % (name, ix), timeout=900)
+        rc, out = vlib.tlc(work, tracemod, env_extra={'TRACE': trace}, name='%s_%d' % (name, ix), timeout=900)
         bad, notes, done = vlib.parse_flags(out)
         if done != nev:
             raise vlib.Inconclusive('TLC did not consume the whole trace (%s of %d lines) in %s:\n%s' % (done, nev, d, out[-2500:]))
@@ -57,7 +57,7 @@ def witness(b):
         if r['run'] == run:
             sched = r
     trace = vlib.split_trace(b['trace']).get(run, [])
-    return dict(kind='tunnel-schedule', run=sched, trace=trace[:4000], tags=b['tags'], at_event=b['n'])
+    return dict(kind='schedule', run=sched, trace=trace[:4000], tags=b['tags'], at_event=b['n'])
 
 
 def sample_of(run):
@@ -90,7 +90,10 @@ def replay(pid, path):
         binary = vlib.build_test(w, './drive/', w.path('drive.test'))
         known = vlib.load_known()
         for attempt in range(1 if mode == 'bubble' else 5):
-            res = drive_and_judge(w, binary, [run], mode, 'replay%d' % attempt)
+            if run.get('tag', '').startswith(('pace', 'history', 'rburst', 'rtlc')):
+                res = drive_and_judge(w, binary, [run], 'real', 'replay%d' % attempt, test='TestRouterSchedules', tracemod='Trace_Rtr')
+            else:
+                res = drive_and_judge(w, binary, [run], mode, 'replay%d' % attempt)
             viol, kf = judge(pid, res, known)
             if viol:
                 print('VIOLATION property=%s replay=%s' % (pid, path))
